@@ -100,7 +100,7 @@ type unsupportedErr struct{ msg string }
 func (u unsupportedErr) Error() string { return "unsupported: " + u.msg }
 func unsupported(msg string) error     { return unsupportedErr{msg} }
 
-func sortedKeys(m map[string]string) []string {
+func sortedKeys[V any](m map[string]V) []string {
 	ks := make([]string, 0, len(m))
 	for k := range m {
 		ks = append(ks, k)
